@@ -395,6 +395,9 @@ pub enum Tweak {
 }
 
 pub struct DocOptions {
+    /// V < 4 only: the dictionary carries `/EncryptMetadata false`, which has no meaning there (the writer
+    /// encrypts the metadata stream like everything else and Algorithm 2 does not look at the entry)
+    pub stray_em_false: bool,
     pub tweak: Option<Tweak>,
     pub variant: Variant,
     pub encrypt_metadata: bool,
@@ -408,7 +411,8 @@ pub struct DocOptions {
 pub fn rand_options(rng: &mut Rng) -> DocOptions {
     let variant = pick_variant(rng);
     let encrypt_metadata = if variant.v >= 4 { rng.chance(1, 2) } else { true };
-    DocOptions { tweak: None, variant, encrypt_metadata, indirect_encrypt: !rng.chance(1, 5), xref_stream: rng.chance(1, 2), with_metadata: rng.chance(3, 4), with_objstm: rng.chance(1, 2) }
+    let stray_em_false = variant.v < 4 && rng.chance(1, 4);
+    DocOptions { stray_em_false, tweak: None, variant, encrypt_metadata, indirect_encrypt: !rng.chance(1, 5), xref_stream: rng.chance(1, 2), with_metadata: rng.chance(3, 4), with_objstm: rng.chance(1, 2) }
 }
 
 fn rand_ids(rng: &mut Rng, k: usize, from: u64) -> Vec<(u64, u64)> {
@@ -502,6 +506,9 @@ pub fn build(rng: &mut Rng, opt: &DocOptions, user_pw: &[u8], owner_pw: &[u8]) -
 
     // the encryption dictionary (plaintext strings, never encrypted)
     let (mut fields, desc_len) = dict_fields(rng, &var, &entries, p, opt.encrypt_metadata);
+    if opt.stray_em_false && var.v < 4 {
+        fields.encrypt_metadata = Some(false);
+    }
     match opt.tweak {
         None => {}
         Some(Tweak::LengthZero) => {
@@ -638,7 +645,7 @@ pub fn build(rng: &mut Rng, opt: &DocOptions, user_pw: &[u8], owner_pw: &[u8]) -
     let desc = format!(
         "{} n={} {} encryptMetadata={} {} {} objstm={} metadata={} upw={} opw={}{}",
         var.name, var.n, desc_len, opt.encrypt_metadata, if opt.xref_stream { "xrefstream" } else { "classic" }, if opt.indirect_encrypt { "encrypt=indirect" } else { "encrypt=direct" }, use_objstm, with_meta, user_pw.len(), owner_pw.len(),
-        opt.tweak.map(|t| format!(" tweak={:?}", t)).unwrap_or_default()
+        format!("{}{}", opt.tweak.map(|t| format!(" tweak={:?}", t)).unwrap_or_default(), if opt.stray_em_false && var.v < 4 { " strayEncryptMetadataFalse" } else { "" })
     );
     Doc {
         bytes: w.out.clone(),
